@@ -292,21 +292,39 @@ func (view *View) groupAll(ctx context.Context, flags *option.Flags) error {
 	return nil
 }
 
-func (view *View) Having(ctx context.Context, scope *ReferenceScope, clause parser.HavingClause) error {
-	err := view.filter(ctx, scope, clause.Filter)
-	if err != nil {
-		if _, ok := err.(*NotGroupingRecordsError); ok {
-			if err = view.group(ctx, scope, nil); err != nil {
-				return err
-			}
-			if err = view.filter(ctx, scope, clause.Filter); err != nil {
-				return err
-			}
-		} else {
-			return err
+// groupImplicitly makes all the records one group, as a query without a GROUP BY clause does when an
+// aggregate function has to be evaluated. That group exists also when there is no record: COUNT is 0
+// and the other aggregates are NULL.
+func (view *View) groupImplicitly(ctx context.Context, scope *ReferenceScope) error {
+	if err := view.group(ctx, scope, nil); err != nil {
+		return err
+	}
+
+	if view.RecordLen() < 1 {
+		record := make(Record, view.FieldLen())
+		for i := range record {
+			record[i] = make(Cell, 0)
 		}
+		view.RecordSet = append(view.RecordSet, record)
 	}
 	return nil
+}
+
+func (view *View) Having(ctx context.Context, scope *ReferenceScope, clause parser.HavingClause) error {
+	if !view.isGrouped {
+		hasAggregateFunction, err := HasAggregateFunction(clause.Filter, scope)
+		if err != nil {
+			return err
+		}
+
+		if hasAggregateFunction {
+			if err = view.groupImplicitly(ctx, scope); err != nil {
+				return err
+			}
+		}
+	}
+
+	return view.filter(ctx, scope, clause.Filter)
 }
 
 func (view *View) Select(ctx context.Context, scope *ReferenceScope, clause parser.SelectClause) error {
@@ -385,16 +403,8 @@ func (view *View) Select(ctx context.Context, scope *ReferenceScope, clause pars
 		}
 
 		if hasAggregateFunction {
-			if err = view.group(ctx, scope, nil); err != nil {
+			if err = view.groupImplicitly(ctx, scope); err != nil {
 				return err
-			}
-
-			if view.RecordLen() < 1 {
-				record := make(Record, view.FieldLen())
-				for i := range record {
-					record[i] = make(Cell, 0)
-				}
-				view.RecordSet = append(view.RecordSet, record)
 			}
 		}
 	}
